@@ -59,7 +59,7 @@ def qkey(q):
 # byte strings (parse / pad)
 
 def kind_str(kind):
-    return f"(custom {kind[1]} {kind[2]})" if isinstance(kind, (tuple, list)) else kind
+    return f"({kind[0]} {kind[1]} {kind[2]})" if isinstance(kind, (tuple, list)) else kind
 
 
 def packets(b):
